@@ -346,4 +346,34 @@ theorem dupLoop_bridge (m : List (Nat × Nat)) (cv : List Nat) (s : UF.State) (n
     | none => rfl
     | some ws => simp [C16.refLoop]
 
+/-! ### `__init__`: `self.singularities`, `self.singu_set` (round 7) -/
+
+theorem mem_setOf (l : List Nat) (x : Nat) : x ∈ setOf l ↔ x ∈ l := by
+  unfold setOf; exact List.mem_eraseDups
+
+/-- `self.singularities` receives ALL the items of the argument, whatever kind of iterable it is (a list is kept as is) -/
+theorem init_singularities (isList : Bool) (arg : Iter) : (C16.initSingularities isList arg).1 = arg.items := by
+  unfold C16.initSingularities iterate
+  cases isList <;> rfl
+
+/-- `self.singu_set` has the members of `self.singularities` when the argument is a list or can be iterated again -/
+theorem init_singu_set_reiterable (isList : Bool) (arg : Iter) (h : arg.oneShot = false) (x : Nat) :
+    x ∈ (C16.initSingularities isList arg).2 ↔ x ∈ arg.items := by
+  unfold C16.initSingularities iterate
+  cases isList <;> simp [h, mem_setOf]
+
+/-- what `_prune_edge_tree` tests the singular vertices against has exactly the items of the constructor's argument as members,
+for EVERY iterable (list — which Python can always iterate again —, re-iterable or one-shot non-list) -/
+theorem prune_reads_singularities (isList : Bool) (arg : Iter) (hl : isList = true → arg.oneShot = false) (x : Nat) :
+    x ∈ C16.pruneSingOf (C16.initSingularities isList arg) ↔ x ∈ arg.items := by
+  first
+  | (unfold C16.pruneSingOf; rw [init_singularities])
+  | (unfold C16.pruneSingOf
+     cases hs : arg.oneShot with
+     | false => exact init_singu_set_reiterable isList arg hs x
+     | true =>
+       cases isList with
+       | true => exact absurd (hl rfl) (by rw [hs]; simp)
+       | false => fail "the container read by _prune_edge_tree is empty for a one-shot iterable")
+
 end Mouette.CutSrc
